@@ -397,24 +397,13 @@ def oracle_aa(ctx, case, stats):
     return []
   cls = G.CLASS_OF[l["k"]]
   sig0 = {"layer": cls, "clause": "analyze_accumulator"}
-  n_loop = w.shape[1]
-  n_out = w.shape[-1] if l["k"] != "dw2d" else w.shape[-2]
+  n_out = w.shape[-1] if l["k"] != "dw2d" else w.shape[-2] * w.shape[-1]
   try:
     with _quiet():
       sizes = estimate.analyze_accumulator(model, {"L0": (lo, hi)})
     size = sizes["L0"]
   except Exception as e:  # pylint: disable=broad-except
     sig = dict(core.exc_signature(e), **sig0)
-    if isinstance(e, OverflowError):
-      # log2(0): every channel the loop visits is all-zero while the layer is not
-      nv = min(n_loop, w.shape[-1])
-      sig["visited_channels_all_zero"] = bool(
-          not w[..., :nv].any() and (b is None or not b[:nv].any()))
-    if l["k"] == "dw2d":
-      sig["loop_extent"] = "kernel_width>1" if n_loop > 1 else "kernel_width==1"
-    else:
-      sig["loop_extent"] = ("shape1>out_channels" if n_loop > n_out else
-                            "shape1<=out_channels")
     return [("analyze_accumulator_raises", sig, repr(e)[:300])]
 
   # worst-case inputs per output channel, realised on the real layer: the input
@@ -441,13 +430,11 @@ def oracle_aa(ctx, case, stats):
   for j, c in enumerate(chans):
     m = max(abs(out[2 * j, c]), abs(out[2 * j + 1, c]))
     if m > 2.0 ** size:
-      # root-cause key: does the estimator return what its documented formula
-      # (bias multiplied by the input bound, loop over kernel.shape[1]) gives?
-      visited = c < n_loop if l["k"] != "dw2d" else (n_loop == 1 and c == 0)
-      if size != _documented_size(l, w, b, lo, hi, n_loop):
+      # root-cause key: the bias-scaling bucket is used only when the estimator
+      # returns exactly what its documented formula gives (every output channel
+      # walked, bias multiplied by the input bound); anything else is "other"
+      if size != _documented_size(l, w, b, lo, hi):
         cause = "other"
-      elif not visited:
-        cause = "channel_not_visited_by_shape1_loop"
       elif b is not None and b[c] != 0 and hi < 1:
         cause = "bias_scaled_by_x_max_below_1"
       else:
@@ -461,16 +448,16 @@ def oracle_aa(ctx, case, stats):
   return fails
 
 
-def _documented_size(l, w, b, lo, hi, n_loop):
+def _documented_size(l, w, b, lo, hi):
   """ceil(log2(max_value)) of the formula in analyze_accumulator's docstring,
-  evaluated the way the unchanged code walks the kernel (index i of the LAST
-  axis for i < kernel.shape[1], bias multiplied by the input bound).  Used
-  only to choose the root-cause key of a failure, never as the oracle."""
+  evaluated over every output channel (depthwise kernels: one column per
+  (input channel, multiplier) pair), bias multiplied by the input bound as the
+  docstring writes it.  Used only to choose the root-cause key of a failure,
+  never as the oracle."""
   vals = []
-  for i in range(n_loop):
-    if i >= w.shape[-1]:
-      return None
-    k = w[..., i]
+  wk = w.reshape(w.shape[:2] + (-1,)) if l["k"] == "dw2d" else w
+  for i in range(wk.shape[-1]):
+    k = wk[..., i]
     bi = 0.0 if b is None else float(b[i])
     npp = float(np.sum(k * (k > 0))) + (bi if bi > 0 else 0.0)
     nnn = float(np.sum(k * (k < 0))) + (bi if bi < 0 else 0.0)
